@@ -92,22 +92,31 @@ WalkRRs(msg, off, k, last) ==
        IF ~r.ok THEN [ok |-> FALSE] ELSE WalkRRs(msg, r.next, k - 1, off)
 
 \* TSIG RDATA (RFC 8945 4.2): algorithm name, time (48), fudge, MAC size, MAC, original id,
-\* error, other len, other data -- filling RDLENGTH exactly
+\* error, other len, other data -- filling RDLENGTH exactly.
+\* AMBIG (full = FALSE): RDATA that stops right after the original id, right after the error field,
+\* or right after an other-len that announces data which is not there.  RFC 8945 has no such form (5.2: a TSIG that cannot be interpreted is a FORMERR); the
+\* library's codec reads every record type's missing trailing fields as zero, and the property
+\* statement takes decoding for granted (codec: C01/C02) -- both verdicts are admitted there.
 TsigRdata(msg, r) ==
   LET a == DecName(msg, r.rdoff) IN
   IF ~a.ok THEN [ok |-> FALSE]
   ELSE LET o1 == a.next IN
     IF o1 < r.rdoff \/ o1 + 10 > r.next THEN [ok |-> FALSE]
     ELSE LET ms == U16At(msg, o1 + 8)
-             o2 == o1 + 10 + ms IN
-      IF o2 + 6 > r.next THEN [ok |-> FALSE]
+             o2 == o1 + 10 + ms
+             T(err, oth, full) ==
+               [ok |-> TRUE, full |-> full, key |-> r.name, alg |-> a.name,
+                time |-> << U16At(msg, o1), U16At(msg, o1 + 2), U16At(msg, o1 + 4) >>,
+                fudge |-> U16At(msg, o1 + 6), mac |-> Sub(msg, o1 + 11, o2),
+                origId |-> U16At(msg, o2), error |-> err, other |-> oth] IN
+      IF o2 + 2 > r.next THEN [ok |-> FALSE]
+      ELSE IF o2 + 2 = r.next THEN T(0, <<>>, FALSE)
+      ELSE IF o2 + 4 = r.next THEN T(U16At(msg, o2 + 2), <<>>, FALSE)
+      ELSE IF o2 + 6 > r.next THEN [ok |-> FALSE]
       ELSE LET ol == U16At(msg, o2 + 4) IN
-        IF o2 + 6 + ol # r.next THEN [ok |-> FALSE]
-        ELSE [ok |-> TRUE, key |-> r.name, alg |-> a.name,
-              time |-> << U16At(msg, o1), U16At(msg, o1 + 2), U16At(msg, o1 + 4) >>,
-              fudge |-> U16At(msg, o1 + 6), mac |-> Sub(msg, o1 + 11, o2),
-              origId |-> U16At(msg, o2), error |-> U16At(msg, o2 + 2),
-              other |-> Sub(msg, o2 + 7, o2 + 6 + ol)]
+        IF o2 + 6 = r.next /\ ol # 0 THEN T(U16At(msg, o2 + 2), <<>>, FALSE)
+        ELSE IF o2 + 6 + ol # r.next THEN [ok |-> FALSE]
+        ELSE T(U16At(msg, o2 + 2), Sub(msg, o2 + 7, o2 + 6 + ol), TRUE)
 
 (* SplitTsig: a received message -> its TSIG and the octets the MAC covers.   *)
 (*  st = "malformed"  the walker cannot reach the end of the message           *)
@@ -115,11 +124,11 @@ TsigRdata(msg, r) ==
 (*     = "badtsig"    last additional record has type TSIG but broken RDATA   *)
 (*     = "ok"         t = the TSIG variables, body = the message without the  *)
 (*                    TSIG record and with ARCOUNT decremented                *)
-(* strict = the TSIG has class ANY and TTL 0 and ends the message, as RFC     *)
-(* 8945 4.2 demands.  AMBIG: RFC 8945 does not say what a receiver does with  *)
-(* another class / TTL (error, digest the constant, digest the received       *)
-(* value) or with octets after the TSIG; verdicts are asserted for strict     *)
-(* messages only.                                                             *)
+(* strict = the TSIG RDATA is complete, class is ANY, TTL is 0 and the record  *)
+(* ends the message, as RFC 8945 4.2 demands.  AMBIG: RFC 8945 does not say   *)
+(* what a receiver does with another class / TTL (error, digest the constant, *)
+(* digest the received value) or with octets after the TSIG; verdicts are     *)
+(* asserted for strict messages only.                                         *)
 SplitTsig(msg) ==
   IF Len(msg) < 12 THEN [st |-> "malformed"]
   ELSE IF ArCount(msg) = 0 THEN [st |-> "nosig"]
@@ -133,7 +142,7 @@ SplitTsig(msg) ==
           IF ~t.ok THEN [st |-> "badtsig"]
           ELSE [st |-> "ok", t |-> t,
                 body |-> SetU16(Take(msg, w.last), 10, ArCount(msg) - 1),
-                strict |-> r.class = ClassANY /\ r.ttl = <<0, 0, 0, 0>> /\ w.end = Len(msg)]
+                strict |-> t.full /\ r.class = ClassANY /\ r.ttl = <<0, 0, 0, 0>> /\ w.end = Len(msg)]
 
 -----------------------------------------------------------------------------
 (* RFC 8945 4.3: what the MAC is computed over.                               *)
